@@ -95,8 +95,48 @@ def check(ctx: Ctx, stream: str, i: int, op, label: str) -> None:
     ctx.case(sx(esx), t is not op, sample={'label': label, 'class': type(op).__name__, 'T_class': type(t).__name__})
 
 
+def complex_case(ctx: Ctx, stream: str, i: int) -> None:
+    """complex operators: the dense matrix of A.T is the TRANSPOSE (not the conjugate transpose) of the dense matrix of A,
+    structures are swapped and A.T.T denotes A — compared in complex arithmetic"""
+    rng = ctx.rng(stream, i)
+    st0, cands = safe(gen.complex_candidates, rng)
+    if st0 != 'ok':
+        ctx.fail(stream, i, f'complex-construction-raises:{st0}', str(cands)[:200], {})
+        return
+    for label, op in cands:
+        cfg = {'label': label, 'class': type(op).__name__}
+        st, t = safe(lambda: op.T)
+        if st != 'ok':
+            ctx.fail(stream, i, f'transpose-raises:{label}:{st}', str(t)[:150], cfg)
+            continue
+        if not (gen.same_structure(t.in_structure(), op.out_structure()) and gen.same_structure(t.out_structure(), op.in_structure())):
+            ctx.fail(stream, i, f'transpose-structures:{label}', 'in/out structures of A.T are not those of A swapped', cfg)
+            continue
+        st1, m = safe(gen.dense, op)
+        st2, mt = safe(gen.dense, t)
+        if st1 != 'ok' or st2 != 'ok':
+            ctx.fail(stream, i, f'transpose-apply-raises:{label}', f'{st1} / {st2}: {str(mt)[:120]}', cfg)
+            continue
+        if not gen.close(mt, m.T):
+            ctx.fail(stream, i, f'transpose-not-adjoint:{label}', 'dense(A.T) is not dense(A) transposed (complex entries)', cfg)
+        st3, tt = safe(lambda: t.T)
+        if st3 != 'ok' or not gen.close(gen.dense(tt), m):
+            ctx.fail(stream, i, f'transpose-transpose:{label}', 'A.T.T does not denote A', cfg)
+        # the bilinear pairing sum_k (A x)_k y_k = sum_k x_k (A.T y)_k
+        x, y = gen.random_input(rng, op.in_structure()), gen.random_input(rng, op.out_structure())
+        lhs = complex(np.sum(gen.flatten_value(op.mv(x)) * gen.flatten_value(y)))
+        rhs = complex(np.sum(gen.flatten_value(x) * gen.flatten_value(t.mv(y))))
+        if abs(lhs - rhs) > 1e-3 * max(1.0, abs(lhs)):
+            ctx.fail(stream, i, f'transpose-dot:{label}', f'sum (Ax)·y = {lhs} but sum x·(A.T y) = {rhs}', cfg)
+        ctx.count('complex:' + label)
+        ctx.case(f'{label}:{i}', True, sample={'label': label})
+
+
 def run(ctx: Ctx) -> None:
     q = ctx.tier == 'quick'
+    for i in range(8 if q else 60):
+        if ctx.want('complex', i):
+            complex_case(ctx, 'complex', i)
     for i in range(150 if q else 3000):
         if ctx.want('expr', i):
             rng = ctx.rng('expr', i)
